@@ -57,6 +57,7 @@ pub fn corr(run: &mut Run) {
                 numbers, ragged arrays, mixed sequences) against the model's ofJ; G: is_equal on byte-flipped copies. \
                 Non-trivial: non-empty input; distinct by request text."
         .to_owned();
+    run.rule.push_str(" O: zero_of_type / one_of_type of random nested types (every third a ragged bit array) = the element-wise encoding, JSON round trip equal. N: from_ndarray on standard, column-major and axis-permuted layouts: rejected or stored in logical order.");
 }
 
 fn corr_bytes(run: &mut Run) {
